@@ -152,14 +152,20 @@ DevQuantBatchArray(src, doc) ==
   \/ DevIdentListBatch(src)
 
 (* d: 1-based index of the judged document, 0 when the judgement is not about a document *)
+(* a condition given as text is judged on its parse (cached in the case as `ast` by TauRule);   *)
+(* a text that does not parse has no triggers                                                   *)
+DevSrcOk(c) == "src" \in DOMAIN c /\ "ids" \in DOMAIN c.src
+               /\ (c.src.cond.t = "text" => ("ast" \in DOMAIN c /\ c.ast.t # "err"))
+DevSrc(c) == IF c.src.cond.t = "text" THEN [cond |-> c.ast, ids |-> c.src.ids] ELSE c.src
 Devs(c, d) ==
-  IF "src" \notin DOMAIN c \/ "ids" \notin DOMAIN c.src \/ c.src.cond.t = "text" THEN {}
-  ELSE LET indefinite == d \in DOMAIN c.docs /\ ~Definite(c.src, c.docs[d]) IN
-       (IF DevQuantPartialBatch(c.src) THEN {"quant_partial_batch"} ELSE {})
-       \cup (IF DevIdentListBatch(c.src) THEN {"ident_list_batch"} ELSE {})
-       \cup (IF d \in DOMAIN c.docs /\ DevQuantBatchArray(c.src, c.docs[d]) THEN {"quant_batch_array"} ELSE {})
-       \cup (IF DevFlattenSeq(c.src) THEN {"shake_flatten_seq"} ELSE {})
-       \cup (IF DevMergeBatch(c.src) THEN {"shake_merge_batch"} ELSE {})
-       \cup (IF HasNegCtx(c.src) /\ indefinite THEN {"opt_reorder"} ELSE {})
-       \cup (IF DevDoubleNot(c.src) /\ indefinite THEN {"shake_double_negation"} ELSE {})
+  IF ~DevSrcOk(c) THEN {}
+  ELSE LET src == DevSrc(c)
+           indefinite == d \in DOMAIN c.docs /\ ~Definite(src, c.docs[d]) IN
+       (IF DevQuantPartialBatch(src) THEN {"quant_partial_batch"} ELSE {})
+       \cup (IF DevIdentListBatch(src) THEN {"ident_list_batch"} ELSE {})
+       \cup (IF d \in DOMAIN c.docs /\ DevQuantBatchArray(src, c.docs[d]) THEN {"quant_batch_array"} ELSE {})
+       \cup (IF DevFlattenSeq(src) THEN {"shake_flatten_seq"} ELSE {})
+       \cup (IF DevMergeBatch(src) THEN {"shake_merge_batch"} ELSE {})
+       \cup (IF HasNegCtx(src) /\ indefinite THEN {"opt_reorder"} ELSE {})
+       \cup (IF DevDoubleNot(src) /\ indefinite THEN {"shake_double_negation"} ELSE {})
 =============================================================================
